@@ -1,3 +1,4 @@
+import Generated.Facts
 import SsoSpec.C02
 import SsoSpec.C01
 
@@ -103,5 +104,9 @@ def exCb : CbIn :=
 example : ∃ s, (oauthCallback id exPol 0 exCb).1 = .login s "/deep?x=1" := ⟨_, rfl⟩
 example : (oauthCallback id exPol 0 { exCb with csrf := .flow "other" "/deep?x=1" }).1 = .errorPage 400 := rfl
 example : (oauthCallback id exPol 0 { exCb with sameString := true }).1 = .errorPage 400 := rfl
+
+/-- Tie (T1): the proxy's provider middleware passes `Redeem` straight through — redemption of a callback's code is **not**
+coalesced with any other callback's, so the session a callback sets is the one *its own* code was redeemed for. -/
+theorem C06_redeem_not_coalesced : Sso.Generated.skel_proxy_sf_Redeem = ["call:Redeem", "return"] := by decide
 
 end Sso.Proxy
